@@ -235,10 +235,38 @@ def g_functiondef(R, tier):
                 want.append(("rep", KD.length, KD.jvar, False, [("ev", "outer", tagstr(KD.items[0].tag))]))
         # None holes of kw_defaults stay None holes, in place
         okh = True
-        for KDs, KDc, flag in zip(a.kw_defaults, ca.kw_defaults, ("KD.is_none", "KD2.is_none")):
-            kd_none, _ = c.valid(z3.Bool(flag))
-            okh = okh and isinstance(KDc, Seg) and TL.term_eq(c, KDc.length, KDs.length) and ((KDc.items[0] is None) == bool(kd_none))
-        R.check(f"{base}.__init__/kw-default-holes-preserved-in-place/{sig}", okh and len(ca.kw_defaults) == len(a.kw_defaults), repr(ca.kw_defaults))
+        from suites.c13 import _provably_zero
+        sym.set_ctx(c)
+        try:
+            from olvc.sym import zint
+            def norm(runs):
+                """[(what, length)] with empty runs dropped and adjacent None runs merged"""
+                out = []
+                for what, n in runs:
+                    if _provably_zero(c, n):
+                        continue
+                    if what == "none" and out and out[-1][0] == "none":
+                        out[-1] = ("none", out[-1][1] + zint(n))
+                    else:
+                        out.append((what, zint(n)))
+                return out
+            src_runs = norm([("none" if c.valid(z3.Bool(fl))[0] else ("T", tagstr(ops.subst_j(K.items[0], K.jvar, z3.Int("J")).tag)), K.length)
+                             for K, fl in zip(a.kw_defaults, ("KD.is_none", "KD2.is_none"))])
+            got = []
+            for K in ca.kw_defaults:
+                if K is None:
+                    got.append(("none", 1))
+                elif isinstance(K, Seg) and len(K.items) == 1 and K.items[0] is None:
+                    got.append(("none", K.length))
+                elif isinstance(K, Seg) and len(K.items) == 1 and isinstance(K.items[0], Opaque) and K.items[0].props.get("sem", (None,))[0] == "T" and not K.rev:
+                    got.append((("T", tagstr(ops.subst_j(K.items[0].props["sem"][2], K.jvar, z3.Int("J")).tag)), K.length))
+                else:
+                    got.append((("other", repr(K)), 1))
+            got_runs = norm(got)
+            okh = len(got_runs) == len(src_runs) and all(g[0] == s_[0] and c.valid(g[1] == s_[1])[0] for g, s_ in zip(got_runs, src_runs))
+        finally:
+            sym.set_ctx(None)
+        R.check(f"{base}.__init__/kw-default-holes-preserved-in-place/{sig}", okh and len(got_runs) == len(src_runs), repr(ca.kw_defaults), replay=dict(kind="sig"))
         want.append(("rep", DEC.length, DEC.jvar, True, [("call", ("val", tagstr(DEC.items[0].tag)), "*", ())]))
         want.append(("store", "outer", "f", "*"))
         ev = compare_def(R, f"{base}.get_result/decorators-top-down-defaults-left-to-right-apply-bottom-up-then-bind/{sig}", p, v["res"], want)
@@ -450,7 +478,8 @@ def replay_sig(rp):
     from suites import replay_util as RU
     src = ("def f(a, b=1, /, c=2, *d, e, g=3, **h):\n    return (a, b, c, d, e, g, h)\n"
            "def k(*, x, y=5):\n    return (x, y)\ndef p(a, /):\n    return a\n"
-           "r = (f(1, e=4), f(1, 2, 3, 4, 5, e=6, z=7), k(x=1), p(9))\n"
+           "def q(*, u='U', v, w='W', z):\n    return (u, v, w, z)\n"
+           "r = (f(1, e=4), f(1, 2, 3, 4, 5, e=6, z=7), k(x=1), p(9), q(v=1, z=2), q(u=0, v=1, w=2, z=3))\n"
            "errs = []\nfor call in (lambda: f(), lambda: f(1), lambda: f(a=1, e=2), lambda: k(1), lambda: p(a=1)):\n"
            "    [errs.append('ok')] if False else None\n")
     return RU.replay_source(src, "same-globals", names=["r"])
